@@ -25,8 +25,9 @@ META = dict(
     outside=["OUTPUT2 (op2.py: pandas table post-processing; its record framing is not claimed)", "ASCII OUTPUT4 files laid out by an independent encoder "
              "(ASCII decoding is exercised writer->reader in C04)", "dense read of complex matrices (dtype reinterpretation of payload)",
              "columns longer than the struct/fromfile cut-over other than through a lowered _rowsCutoff"],
-    assumptions=["matrices of 5-6 rows x 2 columns, up to 2 matrices per file, up to 2 strings per column of 1-2 (3) numbers"],
-    reach_required=["dense", "bigmat", "nonbigmat", "bit64", "big-endian", "single", "complex", "two-strings", "skip", "fromfile", "namelist"],
+    assumptions=["matrices of 5-6 rows x 2 columns, up to 2 matrices per file, up to 2 strings per column of 1-2 (3) numbers",
+                 "tall matrices (65535 rows non-BIGMAT, 200000 rows BIGMAT): one column, two one-number strings at symbolic rows anywhere, sparse read"],
+    reach_required=["tall", "dense", "bigmat", "nonbigmat", "bit64", "big-endian", "single", "complex", "two-strings", "skip", "fromfile", "namelist"],
     trusted_base=["z3 5.1", "the OUTPUT4 binary layout as transcribed in checks/op4kit.py"],
 )
 
@@ -168,10 +169,41 @@ def read_fn(endian, bit64, layout, mtypes, sparse, cutoff):
     return fn
 
 
+def bigrow_fn(endian, bit64, layout, rows):
+    """start rows anywhere in a tall matrix (sparse read keeps them symbolic: no forking over rows)"""
+    def fn(eng):
+        S.set_engine(eng)
+        info = dict(endian=endian, bit64=bit64, layout=layout, mtypes=[2], sparse=True, cutoff=None, rows=rows, bigrow=True)
+        r0, r1 = z3.Int("m0_r0_0"), z3.Int("m0_r0_1")
+        eng.assume(z3.And(r0 >= 0, r1 >= r0 + 2, r1 <= rows - 1))
+        ta, tb = R.Tok("a"), R.Tok("b")
+        spec = dict(name="m0", rows=rows, cols=1, form=2, mtype=2, columns={0: [(S.SymI(r0), [ta]), (S.SymI(r1), [tb])]})
+        fields = K.encode_binary([spec], endian, bit64, layout)
+        obls = []
+        try:
+            o, fh = K.new_reader(fields)
+            rn, rm, rf, rt = o.listload("<stream>", sparse=True)
+            _, r_, c_, (I, J, V) = rm[0]
+            obls.append(E.Obl("tall matrix: two entries decoded", len(I) == 2 and (r_, c_) == (rows, 1) and V[0] is ta and V[1] is tb, info=info))
+            if len(I) == 2:
+                obls.append(E.Obl("tall matrix: first string decoded at its start row", S.lift(I[0]) == r0, info=info))
+                obls.append(E.Obl("tall matrix: second string decoded at its start row", S.lift(I[1]) == r1, info=info))
+            obls.append(E.Obl("tall matrix: stream consumed to its end", fh.i == len(fh.fields), info=info))
+        except E.Inconclusive:
+            raise
+        except R.StreamViolation as ex:
+            return obls + [E.Obl("reader stays on field boundaries: %s" % ex, False, info=info)]
+        except Exception as ex:
+            return obls + [E.Obl("reader raises %r" % (ex,), False, info=info)]
+        eng.tag("tall")
+        return obls
+    return fn
+
+
 # ---------------------------------------------------------------------------
 # replay: write the same physical file with a stand-alone struct encoder and read it with the real module
 
-def _concrete_file(model, endian, bit64, layout, mtypes, path):
+def _concrete_file(model, endian, bit64, layout, mtypes, path, bigrows=None):
     import struct
     kw = 8 if bit64 else 4
     kf = endian + ("q" if bit64 else "i")
@@ -182,6 +214,8 @@ def _concrete_file(model, endian, bit64, layout, mtypes, path):
         tag = "m%d" % k
         rich = (k == 0 and len(mtypes) == 1) or (k == 1)
         rows, cols = 5 + k, (2 if rich else 1)
+        if bigrows:
+            rows, cols = bigrows, 1
         single, cplx = mt in (1, 3), mt in (3, 4)
         nb = 8 if (bit64 or not single) else 4
         ff = endian + ("d" if nb == 8 else "f")
@@ -192,6 +226,8 @@ def _concrete_file(model, endian, bit64, layout, mtypes, path):
         out += tag.upper().ljust(2 * kw).encode() + struct.pack(endian + "i", hl)
         for c in range(cols):
             ns = int(model.get("%s_ns%d" % (tag, c), 0) or 0)
+            if bigrows:
+                ns = 2
             if layout == "dense":
                 ns = min(ns, 1)
             if ns == 0:
@@ -201,6 +237,8 @@ def _concrete_file(model, endian, bit64, layout, mtypes, path):
             irow = 0
             for s_ in range(ns):
                 n = int(model.get("%s_n%d_%d" % (tag, c, s_), 1) or 1)
+                if bigrows:
+                    n = 1
                 r0 = int(model.get("%s_r%d_%d" % (tag, c, s_), 0) or 0)
                 vals = (rng.randint(1, 9, n) + (1j * rng.randint(1, 9, n) if cplx else 0)).astype(complex if cplx else float)
                 if single:
@@ -239,7 +277,7 @@ def replay(p):
     d = tempfile.mkdtemp(prefix="verif-c11-")
     path = os.path.join(d, "t.op4")
     try:
-        mats = _concrete_file(p["model"], p["endian"], p["bit64"], p["layout"], p["mtypes"], path)
+        mats = _concrete_file(p["model"], p["endian"], p["bit64"], p["layout"], p["mtypes"], path, p.get("rows") if p.get("bigrow") else None)
         o = op4.OP4()
         if p.get("cutoff") is not None:
             o._rowsCutoff = p["cutoff"]
@@ -273,6 +311,14 @@ def replay(p):
 REPLAY = {"read": replay}
 
 
+def job_bigrow(endian, bit64, layout, rows):
+    eng = E.Engine()
+    res = eng.explore(bigrow_fn(endian, bit64, layout, rows), max_cex=2)
+    res["note"] = "tall matrix %d rows %s-endian %d-bit %s" % (rows, endian, 64 if bit64 else 32, layout)
+    H.triage(res, "read", replay, lambda c: dict(endian=endian, bit64=bit64, layout=layout, mtypes=[2], sparse=True, cutoff=None, rows=rows, bigrow=True, model=c["model"]))
+    return res
+
+
 def job(endian, bit64, layout, mtypes, sparse, cutoff, split_depth=None, roots=None):
     eng = E.Engine()
     res = eng.explore(read_fn(endian, bit64, layout, mtypes, sparse, cutoff), max_cex=2, roots=roots, split_depth=split_depth)
@@ -302,6 +348,9 @@ def jobs(tier, seed):
         two += [(e, b, l, m, True, None) for e in "<>" for b in (False, True) for l in ("dense", "bigmat", "nonbigmat") for m in ((1, 4), (2, 2))]
     combos += two
     combos += [("<", False, "dense", (2,), False, 2), (">", True, "bigmat", (1,), True, 1), ("<", False, "nonbigmat", (2,), None, 2)]
+    for endian, bit64 in (("<", False), (">", True), ("<", True), (">", False)):
+        out.append(H.Job("tall-nonbigmat-%s%s" % (endian, 64 if bit64 else 32), job_bigrow, endian, bit64, "nonbigmat", 65535, weight=5))
+        out.append(H.Job("tall-bigmat-%s%s" % (endian, 64 if bit64 else 32), job_bigrow, endian, bit64, "bigmat", 200000, weight=5))
     for c in combos:
         out.append(H.Job("read-%s%s-%s-%s-%s-%s" % (c[0], 64 if c[1] else 32, c[2], "".join(map(str, c[3])), c[4], c[5]), job, *c,
                          split_depth=5 if len(c[3]) > 1 else None, weight=30 * len(c[3]) ** 3))
